@@ -126,12 +126,16 @@ def run(ctx):
             cfgobj = EvolveConfig(EvolveMethod.prop_and_compress_tdrk, rk_solver=method)
         if cfgobj.rk_config.method != method or cfgobj.rk_config.order != obj.order:
             ctx.violation(f"C19:{method}:config", "EvolveConfig.rk_config does not carry the requested tableau", {"method": method})
-    for order in range(0, 9):
+    for order in range(0, 31):
         te = rk.TaylorExpansion(order)
+        if len(te.coeff) != order + 1:
+            ctx.violation(f"C19:taylor:{order}:length", f"TaylorExpansion({order}).coeff has {len(te.coeff)} entries, expected {order + 1}", {"order": order})
+            continue
         for k in range(order + 1):
             ctx.case(fingerprint=("taylor", order, k), nontrivial=True)
-            if te.coeff[k] != float(Fraction(1, factorial(k))) or len(te.coeff) != order + 1:
-                ctx.violation(f"C19:taylor:{order}:{k}", f"TaylorExpansion({order}).coeff[{k}] = {te.coeff[k]} != 1/{k}!", {"order": order, "k": k})
+            exact = Fraction(1, factorial(k))
+            if abs(Fraction(float(te.coeff[k])) - exact) > exact * Fraction(4, 10 ** 16):
+                ctx.violation(f"C19:taylor:{order}:{k}", f"TaylorExpansion({order}).coeff[{k}] = {te.coeff[k]!r} != 1/{k}! (beyond 4e-16 relative)", {"order": order, "k": k})
     ctx.notes["order_conditions_evaluated"] = nconds
     ctx.notes["tree_shapes"] = len(shapes)
     ctx.cov["exhaustive"] = True
